@@ -275,6 +275,15 @@ func IsEntityEqual(prevJson []byte, thisJson []byte, prevEntity *Entity, thisEnt
 		return false
 	}
 
+	// the serialised length also covers the deleted flag, so equal lengths do not imply equal key sets:
+	// compare the flag and the number of keys explicitly
+	if prevEntity.IsDeleted != thisEntity.IsDeleted {
+		return false
+	}
+	if len(prevEntity.References) != len(thisEntity.References) || len(prevEntity.Properties) != len(thisEntity.Properties) {
+		return false
+	}
+
 	// assuming that the length check is enough to determine that refs and props have the same keys
 	// it is theoretically possible to have the same json length with different keys ... consider matching keys in both objects as well.
 	for i, v := range prevEntity.References {
